@@ -16,10 +16,12 @@ R3=$(cargo test --offline 2>&1 | grep "test result" | head -1)
 git checkout -q -- .
 cp patch.diff $OUT/patch.diff; mkdir -p $OUT/demo; cp -r demo/* $OUT/demo/
 echo "bug only:   $R1"; echo "bug + demo: $R2"; echo "demo only:  $R3"
-# our check on /repo with the patch applied
-cd /repo && git apply $OUT/patch.diff || { echo "patch does not apply to /repo HEAD"; exit 3; }
-cd /verif && VERIF_NO_EVIDENCE=1 timeout 1200 ./check $P > $OUT/check_output.txt 2>&1; RC=$?
-git -C /repo checkout -- .
+# our check on a scratch worktree of /repo's HEAD with the patch applied (never on /repo itself)
+SW=/tmp/seedcf_$$
+git -C /repo worktree add -q --detach $SW HEAD || exit 3
+git -C $SW apply $OUT/patch.diff || { echo "patch does not apply to /repo HEAD"; git -C /repo worktree remove --force $SW; exit 3; }
+cd /verif && VERIF_REPO=$SW VERIF_NO_EVIDENCE=1 timeout 1200 ./check $P > $OUT/check_output.txt 2>&1; RC=$?
+git -C /repo worktree remove --force $SW; git -C /repo worktree prune
 grep "VIOLATION\|UNDECIDED\|^$P " $OUT/check_output.txt | cut -c1-200
 echo "check exit=$RC"
 python3 - "$P" "$ID" "$R1" "$R2" "$R3" "$RC" <<'PY'
